@@ -32,6 +32,12 @@ PROPS["C02"] = dict(engine="A", runs=(6000, 200000), modes=[("nofault", 0.25), (
     level_note="Trusted: simrt, the twin construction (fresh real instance), murmur3 residue classification via the repo's own GetHash.",
     technique="deterministic simulation: history-vs-fresh-twin differential under seeded config order, residue partition count")
 
+PROPS["C05"] = dict(engine="A", runs=(4000, 200000), modes=[("nofault", 0.2), ("swarm", 0.8)], race=True, race_div=4,
+    level="exploration", design="§6 Engine A / C05",
+    level_text="Seeded search over lock-granular interleavings of 2-4 selector tasks, a task driving all five BalanceRR algorithms, an availability flapper, a reloader (real loaders + BalTableReload) and a slow-start setter on the real balancer; every Lock/RLock/Unlock is a scheduler decision. Oracle: no panic, no deadlock (stuck), no livelock (step budget / per-call step bound after mutators stop). A quarter of the runs is repeated in a -race build in which the scheduler's own hand-off is hidden from the detector, so reports are BFE's own missing happens-before for that interleaving.",
+    level_note="Trusted: simrt scheduler and simsync (lock semantics incl. RWMutex without writer preference), Go race detector; a CPU-only infinite loop without any lock operation would trip the real-time watchdog (exit 2), not a verdict.",
+    technique="deterministic simulation: seeded lock-granular schedule search with fault injection (flaps, reloads, clock), deadlock/livelock detection, race detector under controlled schedules")
+
 NOT_APPLICABLE = {
     "C10": "pure function of (host table, VIP table, Host header): no goroutine, clock, stream, file or peer takes part; the only thing to vary is input, which is generation, not simulation (DESIGN §7)",
     "C11": "basic-rule tree lookup is a pure function of (rule set, host, path); nothing to schedule or fault (DESIGN §7)",
